@@ -464,10 +464,12 @@ PROPS = {
         "assumptions": ["the hostile account lacks delete-user / modify-user (removing other users' accounts with valid requests is not a containment failure); it may send disconnect requests, the well-behaved account cannot be disconnected",
                         "declared fork sizes <= 1 MiB (the property's bound)", "goroutine schedules are sampled"],
         "quick": {"runs": [{"test": "^TestC03$", "shards": 15, "checks": 100, "timeout": 900},
-                           {"test": "^TestC03Net$", "shards": 1, "timeout": 900}]},
+                           {"test": "^TestC03Net$", "shards": 1, "timeout": 900},
+                           {"test": "^TestC03Stalled$", "shards": 1, "checks": 6, "timeout": 900}]},
         "thorough": {"runs": [{"test": "^TestC03$", "shards": 16, "checks": 3000, "timeout": 3400, "group": 0},
                               {"fuzz": "^FuzzC03$", "test": "FuzzC03", "fuzztime": "240s", "timeout": 900, "group": 1, "weight": 16},
                               {"test": "^TestC03Net$", "shards": 2, "timeout": 900, "group": 2, "weight": 8},
+                              {"test": "^TestC03Stalled$", "shards": 2, "checks": 60, "timeout": 1800, "group": 2, "weight": 2},
                               {"test": "^TestC03Net$", "shards": 1, "timeout": 900, "group": 3, "weight": 16, "env": {"VERIF_C03_RACE": "1"}}]},
     },
 }
@@ -476,7 +478,7 @@ PROPS = {
 _LATER = {
     "C01": "TestC01Register: the per-tracker send path (hook VerifRegister) with name / description / password lengths from {0,1,50,127,128,200,237..240,254,255}: the tracker socket receives exactly one datagram that equals the reference encoding (non-trivial = record longer than 508 bytes); TestC01 scribbles over the source buffer after constructing a field (the field must have kept its own copy); the date case draws the host's time zone (fixed offsets -12:00..+14:00 in quarter hours): the same wall-clock reading must encode to the same bytes",
     "C02": "folder uploads leave leftovers (partial and complete items) that both partitions must agree on; the session client's replies are compared in order; a banner may be configured (same in both worlds)",
-    "C03": "while the hostile connections end, three goroutines read the server counters (Stats.Values) in a loop: a reader that blocks forever is a wedge (watchdog); TestC03Net: transfer-port storm kinds, the sentinel downloads a file of its own root before, during and after each batch and after bursts of 40 simultaneous transfer connections, and must get the file's bytes; one valid transfer grant presented on three transfer connections at the same instant (XRef replayed)",
+    "C03": "while the hostile connections end, three goroutines read the server counters (Stats.Values) in a loop: a reader that blocks forever is a wedge (watchdog); TestC03Net: transfer-port storm kinds, the sentinel downloads a file of its own root before, during and after each batch and after bursts of 40 simultaneous transfer connections, and must get the file's bytes; one valid transfer grant presented on three transfer connections at the same instant (XRef replayed); TestC03Stalled: 63-200 logged-in peers stop reading while a broadcast waits for each of them: the well-behaved client's requests are answered, a newcomer can log in, and the user list is back to the well-behaved clients once the peers are gone",
     "C04": "logins whose file names are odd (.ops, a.b, x.yaml, -dash, ~t, #h), the data-size word of the login transaction varied, creations that must be refused (login with a path separator, 250 bytes) made before the attempt: none of them may open a door; logins that are an existing login (or the empty guest login) followed by one or two NUL bytes, with that account's password: another byte string, no account",
     "C05": "cells added: ../-names in upload / rename, side-file kinds, an account record without a name (the logged-in name must be the one the account allows); TestC05GhostCategory: post-article to a news path that does not exist, by a requester without create-category / create-bundle: no grouping may appear in memory or in the file",
     "C06": "TestC06RenameForm (update-user rename form), TestC06GraceWindow, TestC06TwoCreators (two creators at one instant: neither account holds a bit its creator lacks), TestC06Bystander (a protected user sharing the kicked user's address is neither dropped nor refused), schedule point before registry delete in TestC06LoginWindow; creators whose privileges were set at run time (set-user) keep the 24 bits that name no privilege, and may request them: the created account holds exactly what was requested",
